@@ -254,4 +254,63 @@ example : DirsPresent { srcEx with dirs := ["a".toList, "b".toList, "b/cfg_tmp".
   · cases hp
   · exact ⟨by decide, fun _ => by decide⟩
 
+/-! ## existing results of the target are never overwritten -/
+
+theorem step_keeps_existing {dry st t st'} (h : step dry st t = .ok st') (l : Loc) (w : Val) (hl : st.2.files l = some w) :
+    st'.2.files l = some w := by
+  unfold step at h
+  split at h
+  · cases h; exact hl
+  · simp only at h
+    split at h
+    · cases h; exact hl
+    · split at h
+      · split at h
+        · cases h; simp only; rw [inspect_files]; exact hl
+        · cases h
+      · next hnone =>
+        split at h
+        · cases h; simp only; rw [inspect_files]; exact hl
+        · cases h
+          simp only
+          rw [put_files]
+          split
+          · next heq =>
+            subst heq
+            rw [inspect_files] at hnone
+            rw [hnone] at hl; cases hl
+          · rw [inspect_files]; exact hl
+
+/-- **a migration never overwrites what the target already holds** — first or repeated, dry or not, whatever the trees contain: every
+result file of the target is still there, unchanged, after a migration that returns; a migration that cannot keep this refuses (the
+size assertion) and writes nothing over an existing result either (each step that ends in the error has written nothing) -/
+theorem migrate_keeps_existing (dry : Bool) : ∀ (tasks : List MTask) (st st' : Tree × Tree),
+    migrate dry st tasks = .ok st' → ∀ l w, st.2.files l = some w → st'.2.files l = some w
+  | [], st, st', h, l, w, hl => by simp only [migrate] at h; cases h; exact hl
+  | t :: r, st, st', h, l, w, hl => by
+    simp only [migrate] at h
+    cases hs : step dry st t with
+    | error e => rw [hs] at h; cases h
+    | ok st1 =>
+      rw [hs] at h
+      exact migrate_keeps_existing dry r st1 st' h l w (step_keeps_existing hs l w hl)
+
+/-- the prefix of a migration that ends in the size assertion has kept every existing result as well: what was processed before the
+refusal is a migration of a prefix of the task list -/
+theorem migrate_error_prefix (dry : Bool) : ∀ (tasks : List MTask) (st : Tree × Tree) (e : Err),
+    migrate dry st tasks = .error e → ∃ (done : List MTask) (t : MTask) (rest : List MTask) (st1 : Tree × Tree),
+      tasks = done ++ t :: rest ∧ migrate dry st done = .ok st1 ∧ step dry st1 t = .error e
+  | [], st, e, h => by simp [migrate] at h
+  | t :: r, st, e, h => by
+    simp only [migrate] at h
+    cases hs : step dry st t with
+    | error e' =>
+      rw [hs] at h; cases h
+      exact ⟨[], t, r, st, rfl, rfl, hs⟩
+    | ok st1 =>
+      rw [hs] at h
+      obtain ⟨done, t', rest, st2, h1, h2, h3⟩ := migrate_error_prefix dry r st1 e h
+      refine ⟨t :: done, t', rest, st2, by rw [h1]; rfl, ?_, h3⟩
+      simp only [migrate, hs]; exact h2
+
 end TCV.C20
